@@ -181,8 +181,11 @@ func c01eLoops(c *Ctx, splitFn, sbe *ssa.Function) {
 		}
 		c.Check(ok, spec.name+"/condition-call", c.W.Pos(call.Pos()), "condition: success -> body chunk, failure -> return id of the loop, fresh first id", fmt.Sprintf("condition wired as (expr=%s, counter=%s, success=%s, failure=%s, firstID=%s); expected (%s)", pretty(got[0]), got[1], pretty(got[2]), pretty(got[3]), got[4], strings.Join(want, ", ")))
 		entry := c.term(fn, call.(ssa.Value)) + "#2"
-		// header branch behaviour
+		// header branch behaviour: every value the header's jump can take — written at one place
+		// per case, or as one store of a chosen destination — is the body (no condition; while
+		// only) or the entry chunk of the condition (otherwise)
 		nStores := 0
+		sawInfinite, sawEntry := false, false
 		for _, ref := range *header.a.Referrers() {
 			fa, ok := ref.(*ssa.FieldAddr)
 			if !ok || fieldName(fa.X.Type(), fa.Field) != "branchBehavior" {
@@ -194,24 +197,38 @@ func c01eLoops(c *Ctx, splitFn, sbe *ssa.Function) {
 					continue
 				}
 				nStores++
-				dest, isJump := c.structFieldOf(fn, st.Val, "emitter", "jump", "destChunkID", st)
-				must := c.mustLits(fn, st.Block())
-				infinite := hasLit(must, "+($0.Consequence.Expression == nil)")
 				key := spec.name + "/header-branch"
-				if infinite {
-					key += "(no condition)"
-					c.Check(isJump && dest == body.id && !spec.doWhile, key, c.W.Pos(st.Pos()), "condition-less loop header jumps straight to the body", "condition-less header jumps to "+pretty(dest)+", expected the body chunk "+pretty(body.id))
-				} else {
-					c.Check(isJump && dest == entry, key, c.W.Pos(st.Pos()), "loop header jumps to the entry chunk of the condition", "loop header jumps to "+pretty(dest)+", expected the condition entry "+entry)
+				pos := c.W.Pos(st.Pos())
+				ja, isJump := unwrapIface(st.Val).(*ssa.Alloc)
+				if !isJump || !typeIs(ja.Type(), "emitter", "jump") {
+					c.Bad(key, pos, "the loop header's branch behaviour is not a jump")
+					continue
+				}
+				dv := fieldValue(ja, "destChunkID", st)
+				if dv == nil {
+					c.Bad(key, pos, "the loop header's jump has no destination")
+					continue
+				}
+				for _, gl := range c.guardedLeaves(fn, dv, c.mustLits(fn, st.Block())) {
+					dest := c.term(fn, gl.v)
+					infinite := hasLit(gl.must, "+($0.Consequence.Expression == nil)")
+					conditional := hasLit(gl.must, "-($0.Consequence.Expression == nil)")
+					switch {
+					case infinite:
+						sawInfinite = true
+						c.Check(dest == body.id && !spec.doWhile, key+"(no condition)", pos, "condition-less loop header jumps straight to the body", "condition-less header jumps to "+pretty(dest)+", expected the body chunk "+pretty(body.id))
+					case conditional || spec.doWhile:
+						sawEntry = true
+						c.Check(dest == entry, key, pos, "loop header jumps to the entry chunk of the condition", "loop header jumps to "+pretty(dest)+", expected the condition entry "+entry)
+					default:
+						c.Bad(key, pos, "the loop header can jump to "+pretty(dest)+" on a path that does not say whether the loop has a condition")
+					}
 				}
 			}
 		}
-		wantStores := 2
-		if spec.doWhile {
-			wantStores = 1
-		}
-		if nStores != wantStores {
-			c.Bad(spec.name+"/header-branch-count", c.W.Pos(header.a.Pos()), fmt.Sprintf("header chunk gets its branch behaviour at %d places, expected %d", nStores, wantStores))
+		okCover := sawEntry && (spec.doWhile || sawInfinite)
+		if !okCover {
+			c.Bad(spec.name+"/header-branch-count", c.W.Pos(header.a.Pos()), fmt.Sprintf("header chunk gets its branch behaviour at %d places, which do not cover %s", nStores, map[bool]string{true: "the condition entry", false: "both the condition-less and the conditional form"}[spec.doWhile]))
 		}
 		// returned jump and return id
 		for _, r := range returnsOf(fn) {
